@@ -7,7 +7,7 @@
      tile_ok R N t d   every entry of tile data d is NodeAt at its coordinate;
    and in their soundness theorem, stated as a Section hypothesis in the form this file uses:
      tiles_sound : the arguments of SaveTiles are tile_ok, the returned hashes are NodeAt,
-     saved_implies_ok : SaveTiles is called only when ReadHashes goes on to succeed. *)
+     saved_authenticated : the arguments of SaveTiles are tile_ok whatever ReadHashes then returns. *)
 From Verif.Base Require Import Bytes.
 From Verif.Tlog Require Import Index Tree Codec Tile TileReader.
 From Verif.Note Require Import Note.
@@ -229,10 +229,10 @@ Hypothesis tiles_sound : forall N R h ix rt hs ts ds,
   tile_read_hashes node_hash (N, R) h ix rt = (TOk hs, Some (ts, ds)) ->
   Forall2 (node_auth R N) ix hs /\ Forall2 (tile_ok R N) ts ds.
 
-(* C10 read_hashes_err_nothing_saved + no panic after SaveTiles *)
-Hypothesis saved_implies_ok : forall N R h ix rt r sv,
+(* C10 read_hashes_saved_only_authenticated: whatever ReadHashes goes on to return *)
+Hypothesis saved_authenticated : forall N R h ix rt r ts ds,
   1 <= h <= 30 -> 0 <= N < 2 ^ 62 ->
-  tile_read_hashes node_hash (N, R) h ix rt = (r, Some sv) -> exists hs, r = TOk hs.
+  tile_read_hashes node_hash (N, R) h ix rt = (r, Some (ts, ds)) -> Forall2 (tile_ok R N) ts ds.
 
 (* events of the tile layer working for tree tr *)
 Definition tile_ev (name : str) (tr : tree) (e : event) : Prop :=
@@ -276,8 +276,7 @@ Proof.
   destruct (check_and_extract node_hash (Codec.tN tr, Codec.tH tr) p ix data) as [res sv] eqn:Hce.
   cbn [fst snd] in H.
   destruct sv as [[ts ds]|].
-  - destruct (saved_implies_ok _ _ _ _ _ _ _ Hh HN Hpure) as (hs & ->).
-    destruct (tiles_sound _ _ _ _ _ _ _ _ Hh HN Hpure) as [Hauth Hok].
+  - assert (Hok := saved_authenticated _ _ _ _ _ _ _ _ Hh HN Hpure).
     minv H. apply save_tiles_spec in E as [F' T']. apply ret_inv in H as [-> ->].
     split; [eapply tframe_trans; eauto|]. split.
     + eapply textend_trans; [eapply textend_impl; [|exact T]; apply is_read_tile_ev|].
@@ -285,7 +284,7 @@ Proof.
       intros e (t0 & d0 & -> & Hin). cbn. exists t0. split.
       * rewrite (tf_name _ _ F). reflexivity.
       * eapply Forall2_combine_in; eauto.
-    + intros hs' [= <-]. exact Hauth.
+    + intros hs' ->. destruct (tiles_sound _ _ _ _ _ _ _ _ Hh HN Hpure) as [Hauth _]. exact Hauth.
   - apply ret_inv in H as [-> ->]. split; [exact F|]. split.
     + eapply textend_impl; [|exact T]. apply is_read_tile_ev.
     + intros hs ->.
